@@ -225,3 +225,41 @@ def run(prog, chk):
     else:
         r7.ok("cif_parse:version-hand-over", "%d states at the hand-over: undecided only with prefer_cif2 <= 0" % len(hand))
 
+    r8 = chk.rule("R8-encoding-evidence-is-the-converter", "the `not UTF-8` flag cif_parse hands to cif_parse_internal (which decides the "
+                  "CIF_WRONG_ENCODING report) is computed from the name of the converter actually opened and from nothing else: "
+                  "not from the version or the preference, which say what was hoped for, not what was opened", primary=False, floor=1)
+    from ..writerrules import _defs_of
+    pi = prog.fn("cif_parse_internal")
+    nu_ix = next((i for i, p_ in enumerate(pi.params) if "utf8" in p_["name"].lower()), None)
+    calls = cp.calls_to("cif_parse_internal")
+    if nu_ix is None or not calls:
+        raise Broken("cif_parse: the call of cif_parse_internal or its not_utf8 parameter was not found")
+    for (b, i, r, c) in calls:
+        arg = c["args"][nu_ix]
+        seen_, closure = set(), [arg]
+
+        def expand(e, depth=0):
+            if depth > 4:
+                return
+            for y in walk(e):
+                if y.get("k") == "ref" and y.get("dk") in ("local", "parm") and y["name"] not in seen_:
+                    seen_.add(y["name"])
+                    for d_ in _defs_of(cp, y["name"], with_conditions=True):
+                        closure.append(d_)
+                        expand(d_, depth + 1)
+        expand(arg)
+        names = {y.get("name") for e in closure for y in walk(e) if y.get("k") in ("ref", "member")}
+        callees = {y.get("callee") for e in closure for y in walk(e) if y.get("k") == "call"}
+        key = "cif_parse:L%s:not_utf8" % c.get("l")
+        wishes = sorted(nm for nm in names if nm in ("cif_version", "prefer_cif2") or (nm or "").endswith("prefer_cif2"))
+        if "ucnv_getName" not in callees and not any("converter" in (nm or "") for nm in names):
+            r8.violation(cp.file, cp.name, c.get("l"), "not-utf8-without-converter-name",
+                         "the not_utf8 argument at L%s does not depend on the name of the converter that was opened" % c.get("l"))
+        elif wishes:
+            r8.violation(cp.file, cp.name, c.get("l"), "not-utf8-depends-on-version",
+                         "the not_utf8 argument at L%s depends on %s: where CIF 2.0 was decided before the encoding (prefer_cif2 "
+                         ">= 20 with a UTF-16/32 signature or a forced 8-bit default) the flag says UTF-8 although another "
+                         "converter is open, and CIF_WRONG_ENCODING is never reported" % (c.get("l"), ", ".join(wishes)))
+        else:
+            r8.ok(key, "depends on %s only" % ", ".join(sorted(x for x in names if x and ("converter" in x or x in seen_))[:4]))
+
